@@ -141,3 +141,39 @@ def c14(c):
            dict(src='c14_sums.cpp', build='asan', shards={'quick': 2, 'thorough': 5}, defs=['-DVF_SMALL_N'])])
     for k in ('values_summed', 'bins_checked', 'sequences_where_naive_summation_breaks_bound', 'runs_with_N>=1e6'):
         c.require(k)
+
+
+@prop('C17',
+      rule="case = one run of hep::plain / vegas / multi_channel (dims 1..3, 1..3 iterations of 0..600 calls, mt19937 or a scripted engine that "
+           "forces canonical 0 / largest-below-1 / 2^-64 into every coordinate and the channel selector) with a recording integrand (value class "
+           "zero / finite / NaN / inf chosen by a hash of the point, optional explicit weight request, optional projector use) and a recording "
+           "channel map (power-law channels, lazy or eagerly-filling densities, weights with disabled channels); the event stream of every "
+           "call is run through the protocol state machine. non-trivial = run containing zero-valued, non-zero and weight-requesting calls; "
+           "distinct = run configuration hash.",
+      assumptions=["'same buffers' is judged within one call (addresses and content hashes between the two map calls); buffers may differ between calls",
+                   "a density request after the integrand returned zero is accepted only if the integrand itself requested the weight (directly or via projector.add)",
+                   "VEGAS points may sit up to 2 ulp outside their bin (rounding of the interpolation)"])
+def c17(c):
+    c.std([dict(src='c17_protocol.cpp', build='asan', shards={'quick': 5, 'thorough': 5}),
+           dict(src='c17_protocol.cpp', build='clang', shards={'quick': 1, 'thorough': 5}, tiers=('thorough',))])
+    for k in ('calls_checked', 'map_coordinate_calls', 'map_density_calls', 'density_calls_inside_integrand', 'density_calls_after_integrand',
+              'zero_valued_calls', 'non_zero_calls', 'weight_requesting_calls', 'extreme_zero_coordinates', 'extreme_max_coordinates',
+              'scripted_runs', 'random_runs'):
+        c.require(k)
+
+
+@prop('C02',
+      rule="case = one run of hep::plain / vegas / multi_channel (dims 1..4, 1..4 iterations, calls in {0,1,2,3,5,17,100,1000} or 2..3000, engine "
+           "mt19937 / minstd_rand / ranlux48 at a random offset) with a recording integrand whose value class (zero, negative, NaN/-inf, huge-but-"
+           "finite, ordinary) is a hash of the point, optional 1-d distribution; after every iteration the result accessors are compared with "
+           "an exact-sum recomputation from the logged (f, w, bin / channel densities). non-trivial = an iteration with N>=2 mixing zero and "
+           "non-zero values; distinct = run configuration hash.",
+      assumptions=["sums judged within (N+16)*eps_T*sum|terms| (loose enough for naive summation; accuracy is C14's business)",
+                   "multi-channel weights are reconstructed in T from the densities/jacobian the map returned and the channel weights recorded in the result",
+                   "multi-channel adjustment entries that are non-finite are not judged here (C06 decides contamination)"])
+def c02(c):
+    v = [('float.mt', ['-DVF_T=float']), ('double.mt', ['-DVF_T=double']), ('ldouble.mt', ['-DVF_T=long double']),
+         ('double.minstd', ['-DVF_T=double', '-DVF_ENG=std::minstd_rand']), ('double.ranlux48', ['-DVF_T=double', '-DVF_ENG=std::ranlux48'])]
+    c.std([dict(src='c02_estimator.cpp', build='asan', variants=v, shards={'quick': 3, 'thorough': 3})])
+    for k in ('iterations_judged', 'adjustment_entries_judged', 'bins_judged', 'runs_plain', 'runs_vegas', 'runs_multi_channel', 'finite_values_with_non_finite_product', 'zero_values_where_weight_is_not_finite'):
+        c.require(k)
